@@ -18,16 +18,24 @@ META = {
              "lists of length 0..L+1 with an invalid item at each position) x 4 list flavours "
              "(TraitList without validator / rejecting / coercing validator, TraitListObject of a "
              "List(Instance) trait), enumerated exhaustively for L<=Lmax, plus random 25-op "
-             "histories. distinct_nontrivial counts distinct (flavour, op, index-shape class, "
+             "histories (items include equal-but-distinct twins and NaN-likes), plus histories in "
+             "which a listener reacts to an event with 1-3 further operations on the same list "
+             "while a mirror registered first rebuilds the contents from the events it receives. "
+             "distinct_nontrivial counts distinct (flavour, op, index-shape class, "
              "outcome class, event-shape class) signatures of cases in which the list changed, an "
              "event was emitted or an exception was raised."),
     "phases": [{"name": "main", "flavour": "P", "shards": 16}],
     "gates": {
         "quick": {"evaluations": 200000, "events_replayed": 50000, "failures_checked": 20000,
-                  "slice_events": 2000, "history_ops": 20000, "unwatched_evaluations": 30000},
+                  "slice_events": 2000, "history_ops": 20000, "unwatched_evaluations": 30000,
+                  "twin_ops": 3000, "reent_outer_ops": 8000, "reent_reactions": 6000,
+                  "reent_ops_with_two_or_more_reactions": 2000, "reent_events_replayed": 10000},
         "thorough": {"evaluations": 10000000, "events_replayed": 3000000, "failures_checked": 1000000,
                      "slice_events": 100000, "history_ops": 3000000,
-                     "unwatched_evaluations": 800000},
+                     "unwatched_evaluations": 800000, "twin_ops": 150000,
+                     "reent_outer_ops": 800000, "reent_reactions": 600000,
+                     "reent_ops_with_two_or_more_reactions": 200000,
+                     "reent_events_replayed": 1000000},
     },
     "exhaustive_parts": "all single operations on lists of length 0..5 (quick) / 0..8 (thorough) "
                         "over the index/slice/replacement grid described in rule",
@@ -63,8 +71,58 @@ class VN(V):
         return "vn%d" % self.n
 
 
+class VE(V):
+    """an item equal to every other VE with the same n: equal-but-distinct twins exist, so
+    anything decided by == where the list decides by position / identity becomes visible"""
+    __slots__ = ()
+
+    def __eq__(self, other):
+        return type(other) is VE and other.n == self.n
+
+    def __hash__(self):
+        return hash(self.n)
+
+    def __repr__(self):
+        return "ve%d" % self.n
+
+
 def mkitem(i):
-    return VN(i) if i % 3 == 2 else V(i)
+    return VN(i) if i % 3 == 2 else VE(i) if i % 3 == 1 else V(i)
+
+
+def twin(x):
+    """a distinct object standing in the same == relation to x as x's class defines: equal for
+    VE, unequal for VN; a plain V has no twin (identity is its equality), it stands for itself"""
+    if type(x) is VE:
+        return VE(x.n)
+    if type(x) is VN:
+        return VN(x.n)
+    return x
+
+
+def resolve(op, before):
+    """Twin ops are generated without knowing the contents; turn them into concrete ops on the
+    list as it is now (the same concrete op then goes to the real list and to the model)."""
+    name = op[0]
+    L = len(before)
+    if name == "setitem_twin":
+        key = mk_key(op[1])
+        if isinstance(key, slice):
+            try:
+                run = before[key]
+            except ValueError:
+                run = []
+            return ("setitem", op[1], [twin(x) for x in run])
+        return ("setitem", op[1], twin(before[key]) if -L <= key < L else V(777))
+    if name == "append_twin":
+        return ("append", twin(before[op[1] % L]) if L else V(778))
+    if name == "insert_twin":
+        return ("insert", op[1], twin(before[op[2] % L]) if L else V(779))
+    if name == "extend_twin":
+        return ("extend", [twin(x) for x in before])
+    if name == "remove_twin":
+        return ("remove_obj", twin(before[op[1] % L]) if L else DUMMY)
+    return op
 
 
 BAD = "BAD"
@@ -197,6 +255,8 @@ def apply_op(target, op, validate):
     if name == "setitem_self":
         target[mk_key(op[1])] = target if validate is None else [v(x) for x in list(target)]
         return None
+    if name == "remove_obj":
+        return target.remove(op[1])
     if name == "clear":
         return target.clear()
     if name == "reverse":
@@ -275,6 +335,9 @@ def check_one(ctx, flavour, tl, model, op, events, holder=None):
     before = list(tl)
     L = len(before)
     del events[:]
+    if op[0].endswith("_twin"):
+        ctx.count("twin_ops")
+        op = resolve(op, before)
     items = raw_items(op)
     bad = False
     for x in items:
@@ -430,6 +493,16 @@ def single_ops(L, flavour):
     yield ("pop",)
     for j in range(L):
         yield ("remove", j)
+        # equal-but-distinct twins of stored items as arguments
+        yield ("remove_twin", j)
+        yield ("append_twin", j)
+        yield ("setitem_twin", j)
+        yield ("setitem_twin", j - L)
+        yield ("insert_twin", 0, j)
+        yield ("insert_twin", j, j)
+    yield ("extend_twin",)
+    for a, b, c in itertools.product(se, se, (None, 1, -1, 2, -2, 3)):
+        yield ("setitem_twin", ("s", a, b, c))
     yield ("remove", "absent")
 
 
@@ -453,7 +526,7 @@ def random_op(rng, L, flavour):
             return None if rng.random() < 0.25 else rng.randint(-L - 2, L + 2)
         st = rng.choice([None, None, 1, 1, -1, 2, -2, 3, -3, L + 1, -(L + 1), 0, 5])
         return ("s", e(), e(), st)
-    c = rng.randrange(17)
+    c = rng.randrange(18)
     if c == 0:
         return ("setitem", idx(), item())
     if c in (1, 2):
@@ -491,7 +564,184 @@ def random_op(rng, L, flavour):
                            ("iadd_self",), ("setitem_self", sl())])
     if c == 15:
         return ("setitem", ("s", idx(), idx(), None), [item() for _ in range(rng.randint(0, 3))])
+    if rng.random() < 0.7:
+        return rng.choice([("setitem_twin", sl()), ("setitem_twin", sl()), ("setitem_twin", idx()),
+                           ("append_twin", rng.randrange(64)), ("insert_twin", idx(), rng.randrange(64)),
+                           ("remove_twin", rng.randrange(64)), ("extend_twin",)])
     return ("append", item())
+
+
+class HolderStatic(HasTraits):
+    xs = List(Instance(V))
+
+    def _xs_items_changed(self, event):
+        r = self.__dict__.get("_reactor")
+        if r is not None:
+            r()
+
+
+def reaction_op(rng, L, flavour):
+    """an always-valid content-changing (or deliberately no-op) operation for a reacting
+    listener to perform on the list it is being told about"""
+    new = V(rng.randrange(10 ** 6))
+    if flavour == "coerce" and rng.random() < 0.4:
+        new = rng.randrange(64)
+    c = rng.randrange(10)
+    if c == 0 or L == 0:
+        return ("append", new)
+    if c == 1:
+        return ("insert", rng.randint(-L - 1, L + 1), new)
+    if c == 2:
+        return ("pop", rng.randrange(L))
+    if c == 3:
+        return ("setitem", rng.randrange(-L, L), new)
+    if c == 4 and L >= 3:
+        return ("delitem", ("s", None, None, 2))
+    if c == 5:
+        return ("extend", [new, V(rng.randrange(10 ** 6))])
+    if c == 6:
+        return ("reverse",)
+    if c == 7:
+        return ("remove", rng.randrange(L))
+    if c == 8:
+        return ("setitem", ("s", 0, 1, None), [])
+    return ("append", new)
+
+
+def reent_history(ctx, h, events):
+    """Listeners that change the list they are being told about.  A mirror registered FIRST
+    rebuilds the contents purely from the events it receives: each must apply to the mirror as
+    it stands (it describes the operation that was just made on exactly those contents), and at
+    quiescence the mirror is the list.  The model is the built-in list receiving the outer
+    operation and then the reactions in the order they were made."""
+    rng = ctx.rng("reent", h)
+    flavour = rng.choice(["none", "reject", "coerce", "tlo-notifier", "tlo-static", "tlo-observe",
+                          "tlo-otc"])
+    validate = {"none": v_none, "reject": v_reject, "coerce": v_coerce}.get(flavour, v_tlo)
+    base = flavour if flavour in ("none", "reject", "coerce") else "tlo"
+    L0 = rng.randint(0, 5)
+    items = [mkitem(i) for i in range(L0)]
+    mirror_state = {"cur": None, "complaint": None, "n": 0}
+
+    def mirror(tl, index, removed, added):
+        mirror_state["n"] += 1
+        if mirror_state["complaint"] is None:
+            c = replay_event(mirror_state["cur"], (index, list(removed), list(added)))
+            ctx.count("reent_events_replayed")
+            if c:
+                mirror_state["complaint"] = "%s (event #%d: %r)" % (
+                    c, mirror_state["n"], (index, list(removed), list(added)))
+
+    plan = {"ops": [], "busy": False, "performed": []}
+
+    def react(*a):
+        if plan["busy"] or not plan["ops"]:
+            return
+        plan["busy"] = True
+        try:
+            for spec in plan["ops"]:
+                op = reaction_op(spec, len(tl), base)
+                plan["performed"].append(op)
+                apply_op(tl, op, None)
+                ctx.count("reent_reactions")
+        finally:
+            plan["busy"] = False
+            plan["ops"] = []
+
+    holder = None
+    if base != "tlo":
+        kw = {} if flavour == "none" else {"item_validator": validate}
+        tl = TraitList(items, notifiers=[mirror, react], **kw)
+    else:
+        holder = (HolderStatic if flavour == "tlo-static" else Holder)(xs=items)
+        tl = holder.xs
+        tl.notifiers.insert(0, mirror)
+        if flavour == "tlo-notifier":
+            tl.notifiers.append(react)
+        elif flavour == "tlo-static":
+            holder.__dict__["_reactor"] = react
+        elif flavour == "tlo-observe":
+            holder.observe(react, "xs.items")
+        else:
+            holder.on_trait_change(react, "xs_items")
+        tl = holder.xs
+    model = list(tl)
+    mirror_state["cur"] = list(tl)
+    hist = []
+    for step in range(10):
+        L = len(model)
+        op = random_op(rng, L, base)
+        if op[0].endswith("_twin"):
+            op = resolve(op, list(tl))
+        nreact = rng.choice([0, 1, 2, 2, 3])
+        plan["ops"] = [ctx.rng("reent", h, step, j) for j in range(nreact)]
+        plan["performed"] = []
+        n0 = mirror_state["n"]
+        before = list(tl)
+        soft = (lambda x: DUMMY if _invalid(validate, x) else validate(x))
+        m2 = list(model)
+        try:
+            rm = ("ok", apply_op(m2, op, soft))
+        except Exception as e:
+            rm = ("exc", type(e))
+        bad = any(_invalid(validate, x) for x in raw_items(op))
+        try:
+            rr = ("ok", apply_op(tl, op, None))
+        except Exception as e:
+            rr = ("exc", type(e))
+        plan["ops"] = []
+        performed = list(plan["performed"])
+        hist.append((op, performed))
+        ctx.ev()
+        ctx.count("reent_outer_ops")
+        complaint = None
+        if bad or rm[0] == "exc":
+            if rr[0] != "exc":
+                complaint = "failing-op-did-not-raise"
+            elif performed or [id(x) for x in tl] != [id(x) for x in before]:
+                complaint = "changed-or-notified-on-failure"
+            m2 = list(model)
+            nchanging = 0
+        else:
+            nchanging = 1 if [id(x) for x in m2] != [id(x) for x in model] else 0
+            if rr[0] != "ok":
+                complaint = "op-raised-%s" % rr[1].__name__
+            elif rr[1] is not rm[1] and rr[1] != rm[1]:
+                complaint = "return-value-differs"
+            for rop in performed:
+                prev = list(m2)
+                try:
+                    apply_op(m2, rop, soft)
+                except Exception as e:       # the reaction raised inside the listener too
+                    pass
+                if [id(x) for x in m2] != [id(x) for x in prev]:
+                    nchanging += 1
+            if performed:
+                ctx.count("reent_ops_with_reactions")
+                if len(performed) >= 2:
+                    ctx.count("reent_ops_with_two_or_more_reactions")
+        if complaint is None and [id(x) for x in tl] != [id(x) for x in m2]:
+            complaint = "contents-differ"
+        if complaint is None and mirror_state["complaint"]:
+            complaint = "event-does-not-apply-to-contents-at-delivery"
+        # one event per content-changing operation; an operation that leaves the contents as they
+        # were may or may not report itself (tl[i] = tl[i] does), it never reports twice
+        nops = 0 if (bad or rm[0] == "exc") else 1 + len(performed)
+        nev = mirror_state["n"] - n0
+        if complaint is None and not (nchanging <= nev <= nops):
+            complaint = "events-%s-than-operations" % ("fewer" if nev < nchanging else "more")
+        if complaint is None and [id(x) for x in mirror_state["cur"]] != [id(x) for x in tl]:
+            complaint = "mirror-differs-from-contents"
+        ctx.sig("reent", flavour, op[0], min(len(performed), 3), rr[0], min(mirror_state["n"] - n0, 4))
+        if complaint:
+            ctx.violation("reent/%s" % complaint.split(" ")[0],
+                          "%s: %s list, outer op %r, reactions made by the listener %r; before=%r after=%r "
+                          "model=%r mirror=%r mirror complaint=%r"
+                          % (complaint, flavour, op, performed, before, list(tl), m2,
+                             mirror_state["cur"], mirror_state["complaint"]),
+                          {"flavour": flavour, "history": hist[-4:], "before": before, "after": list(tl)})
+            return
+        model = m2
 
 
 def install_contract(ctx):
@@ -572,5 +822,16 @@ def run(ctx):
                     break
             if h < 3 * ctx.nshards:
                 ctx.sample({"flavour": flavour, "start": items, "history": ops[:6]})
+        finally:
+            ctx.end()
+    # ---- listeners that change the list they are told about ------------------
+    nre = ctx.scale(3000, 300000)
+    for h in range(nre):
+        if not ctx.mine(h):
+            continue
+        if not ctx.begin("reent:%d" % h):
+            continue
+        try:
+            reent_history(ctx, h, events)
         finally:
             ctx.end()
